@@ -3,6 +3,7 @@ package main
 // Loading of the repository under verification: go/packages -> go/ssa (naive form) + contract files.
 
 import (
+	"sync"
 	"fmt"
 	"go/types"
 	"os"
@@ -25,6 +26,8 @@ type Program struct {
 	Specs     map[string]*Contract    // spec functions by name ("spec.murmur2")
 	Lemmas    []*Contract
 	Types     map[string]*Contract // type/lock/functype/iface blocks by "pkgpath\x00name"
+	callers   map[*ssa.Function][]*ssa.Function
+	callersMu sync.Mutex
 	Files     []*ContractFile
 	Immutable map[string]bool // global name -> never stored outside init
 	ModPath   string
@@ -263,6 +266,8 @@ func (p *Program) resolveAs() {
 		if ft == nil {
 			continue
 		}
+		c.AsName = name
+		c.AsOnly = len(c.Requires) == 0 && len(c.Ensures) == 0 && len(c.Loops) == 0 && len(c.CallSites) == 0 && c.Trusted == ""
 		c.Requires = append(append([]*Clause(nil), ft.Requires...), c.Requires...)
 		c.Ensures = append(append([]*Clause(nil), ft.Ensures...), c.Ensures...)
 		c.Modifies = append(append([]*Clause(nil), ft.Modifies...), c.Modifies...)
@@ -291,5 +296,129 @@ func sortedKeys[M ~map[string]V, V any](m M) []string {
 		out = append(out, k)
 	}
 	sort.Strings(out)
+	return out
+}
+
+// staticCallers: the functions of fn's package (closures included) that mention fn in a static call, go or defer
+// statement, or take it as a value (a function used as a value has unknown callers: reported as two callers).
+func (p *Program) staticCallers(fn *ssa.Function) []*ssa.Function {
+	p.callersMu.Lock()
+	defer p.callersMu.Unlock()
+	if p.callers == nil {
+		p.callers = map[*ssa.Function][]*ssa.Function{}
+		seen := map[[2]*ssa.Function]bool{}
+		add := func(callee, caller *ssa.Function) {
+			k := [2]*ssa.Function{callee, caller}
+			if !seen[k] {
+				seen[k] = true
+				p.callers[callee] = append(p.callers[callee], caller)
+			}
+		}
+		var visit func(f *ssa.Function)
+		visit = func(f *ssa.Function) {
+			for _, b := range f.Blocks {
+				for _, ins := range b.Instrs {
+					var callee ssa.Value
+					if ci, ok := ins.(ssa.CallInstruction); ok {
+						callee = ci.Common().Value
+						if g, ok := callee.(*ssa.Function); ok && !ci.Common().IsInvoke() {
+							add(g, f)
+						}
+					}
+					for _, op := range ins.Operands(nil) {
+						if op == nil || *op == nil || *op == callee {
+							continue
+						}
+						if g, ok := (*op).(*ssa.Function); ok {
+							// used as a value: unknown callers
+							add(g, f)
+							add(g, nil)
+						}
+					}
+				}
+			}
+			for _, a := range f.AnonFuncs {
+				visit(a)
+			}
+		}
+		for _, sp := range p.SPkgs {
+			for _, m := range sp.Members {
+				if f, ok := m.(*ssa.Function); ok {
+					visit(f)
+				}
+			}
+			for _, m := range sp.Members {
+				if t, ok := m.(*ssa.Type); ok {
+					for _, recv := range []types.Type{t.Type(), types.NewPointer(t.Type())} {
+						ms := p.SSA.MethodSets.MethodSet(recv)
+						for i := 0; i < ms.Len(); i++ {
+							if f := p.SSA.MethodValue(ms.At(i)); f != nil && f.Pkg == sp {
+								visit(f)
+							}
+						}
+					}
+				}
+			}
+		}
+	}
+	return p.callers[fn]
+}
+
+// discoverInstances: named functions introduced since the lock was written that are used as values and have exactly the
+// signature of a function type with a `functype` contract are instances of that type (a closure that an edit turned into
+// a named helper): they get the contract a closure declared `option as <functype>` would have. Returns the synthesized
+// contracts (tagged with the properties of the functype block).
+func (p *Program) discoverInstances() []*Contract {
+	var out []*Contract
+	for _, key := range sortedKeys(p.Types) {
+		ft := p.Types[key]
+		if ft.Kind != "functype" {
+			continue
+		}
+		sp := p.SPkgs[ft.Pkg]
+		if sp == nil || sp.Pkg == nil {
+			continue
+		}
+		obj := sp.Pkg.Scope().Lookup(ft.Name)
+		if obj == nil {
+			continue
+		}
+		// only function types some closure of the package is declared an instance of
+		used := false
+		for _, c := range p.Contracts {
+			if c.Pkg == ft.Pkg && c.AsName == ft.Name {
+				used = true
+			}
+		}
+		if !used {
+			continue
+		}
+		for _, fn := range p.pkgFunctions(ft.Pkg) {
+			if !p.isNewFunction(fn) || p.ContractOf(fn) != nil || fn.Signature.Recv() != nil {
+				continue
+			}
+			if !types.Identical(fn.Signature, obj.Type().Underlying()) {
+				continue
+			}
+			asValue := false
+			for _, c := range p.staticCallers(fn) {
+				if c == nil {
+					asValue = true
+				}
+			}
+			if !asValue {
+				continue
+			}
+			c := &Contract{Kind: "func", Name: relName(fn), Pkg: ft.Pkg, Props: append([]string(nil), ft.Props...), Loops: map[string]*LoopSpec{}, Unproved: map[string]string{}, Options: map[string]string{"noframe": ""}, File: ft.File, Line: ft.Line, Unfold: 1}
+			c.AsName, c.AsOnly = ft.Name, true
+			c.Requires = append([]*Clause(nil), ft.Requires...)
+			c.Ensures = append([]*Clause(nil), ft.Ensures...)
+			c.Modifies = append([]*Clause(nil), ft.Modifies...)
+			c.Mode = ft.Mode
+			c.Assumes = append(c.Assumes, "instance of the function type "+ft.Name+" discovered in the tree under verification (a named function, new since the contracts were locked, used as a value of that type)")
+			p.Contracts[fkey(ft.Pkg, c.Name)] = c
+			out = append(out, c)
+		}
+	}
 	return out
 }
